@@ -11,6 +11,9 @@ for m in sorted(glob.glob('/verif/seeded/*/meta.json')):
     caught = [c['property'] for c in d['checks_run'] if c['exit'] == 1]
     if not caught:
         continue
+    if 'applies_to' in d:
+        print(f'seed={seed} {sid} skipped: applies to {d["applies_to"]["commit"]} only', flush=True)
+        continue
     aimed = d['breaks_property']
     props = [aimed] if aimed in caught else [caught[0]]
     assert subprocess.run(['git', '-C', '/repo', 'status', '--porcelain'], capture_output=True, text=True).stdout.strip() == ''
